@@ -270,6 +270,25 @@ A64_CHAIN = ["ldr d1, [x2], #8", "fadd d3, d1, d4", "ldr d5, [x2, #16]!", "fmul 
              "b.ne .L1"]
 
 
+def gen_scaledep_a64(rng):
+    """a store and a load through `[base, index, <shift> #s]` whose addresses coincide only if the scale is `2 ** s`: the index
+    moves by k, the base by -k * 2**s (both with known register changes: `add`/`sub` with an immediate)"""
+    b, i, o = rng.sample([1, 2, 3, 4, 5, 6, 7], 3)
+    s_ = rng.choice([0, 1, 2, 3, 3, 3, 4])
+    k = rng.choice([1, 2, 4])
+    ext = rng.choice(["lsl", "lsl", "sxtx"])
+    addr = "[x%d, x%d, %s #%d]" % (b, i, ext, s_)
+    lines = ["str d1, " + addr, "add x%d, x%d, #%d" % (i, i, k)]
+    if rng.random() < 0.85:
+        lines.append("sub x%d, x%d, #%d" % (b, b, k << s_))
+    if rng.random() < 0.3:
+        lines.append("fadd d4, d4, d5")
+    lines += [rng.choice(["ldr d2, ", "ldr x%d, " % o]) + addr, "fadd d3, d2, d2" if rng.random() < 0.7 else "add x9, x%d, x%d" % (o, o)]
+    if rng.random() < 0.4:
+        lines.append("ldr d6, [x%d, x%d, lsl #0]" % (b, i))       # scale 2 ** 0 = 1: matches the entries that declare scale 1
+    return lines
+
+
 def glue_domain_a64(parser, line):
     """is the parsed line inside the domain of the AArch64 glue (Model/Glue.lean): every memory operand has no offset or an
     integer offset, every post-index is a plain number; None = the parser rejects the line"""
@@ -291,11 +310,13 @@ def glue_domain_a64(parser, line):
 
 
 def body_for_a64(rng, model, parser):
-    kind = rng.choice(["dgenc", "dgenc", "mixed", "synth", "memdep", "chain"])
+    kind = rng.choice(["dgenc", "dgenc", "mixed", "synth", "memdep", "chain", "scaledep"])
     if kind == "dgenc":
         body = dgenc.gen_a64_kernel(rng, rng.randint(2, 10), mem=True, npool=rng.choice([2, 3, 4]))
     elif kind == "memdep":
         body = dgenc.gen_memdep_a64(rng)[0]
+    elif kind == "scaledep":
+        body = gen_scaledep_a64(rng)
     elif kind == "chain":
         a = rng.randrange(0, 6)
         body = A64_CHAIN[a:a + rng.randrange(3, 9)]
@@ -607,11 +628,13 @@ def run_e2e_correspondence(ctx, volume, shipped=("zen2", "spr"), shipped_volume=
                             if not re.search(r"[A-Za-z_.][\w.]*\(", b)]
                     unknown = "zzunknown %rax, %rcx"
                 else:
-                    gen = rng.choice(["dgenc", "dgenc", "memdep", "chain"])
+                    gen = rng.choice(["dgenc", "dgenc", "memdep", "chain", "scaledep"])
                     if gen == "dgenc":
                         body = dgenc.gen_a64_kernel(rng, rng.randint(3, 10), mem=True, npool=rng.choice([2, 3, 4]))
                     elif gen == "memdep":
                         body = dgenc.gen_memdep_a64(rng)[0]
+                    elif gen == "scaledep":
+                        body = gen_scaledep_a64(rng)
                     else:
                         a = rng.randrange(0, 6)
                         body = A64_CHAIN[a:a + rng.randrange(3, 9)]
